@@ -234,24 +234,31 @@ pub fn simple_tokens(text: &str) -> Vec<String> {
 /// different classes: a digit, an upper-case letter, the underscore, lower-case letters (0 < E < _ < e < r < z),
 /// so that an ordering which ignores case or treats the underscore differently shows
 const NAME_DIGITS: [char; 6] = ['0', 'E', '_', 'e', 'r', 'z'];
+/// (the last part is the number 10 for even ranks and 9 for odd ranks: byte-wise "..10" < "..9", a numeric or
+/// "natural" order would say the opposite)
 pub fn name_of_rank(rank: u64) -> String {
-    let mut r = rank;
+    let mut r = rank / 2;
     let mut tail = Vec::new();
-    for _ in 0..7 {
+    for _ in 0..6 {
         tail.push(NAME_DIGITS[(r % 6) as usize]);
         r /= 6;
     }
     tail.reverse();
-    format!("N{}", tail.into_iter().collect::<String>())
+    format!("N{}.{}", tail.into_iter().collect::<String>(), if rank % 2 == 0 { "10" } else { "9" })
 }
 pub fn rank_of_name(name: &str) -> u64 {
     let Some(t) = name.strip_prefix('N') else { return 99999 };
+    let Some((head, num)) = t.split_once('.') else { return 99999 };
     let mut r = 0u64;
-    for c in t.chars() {
+    for c in head.chars() {
         match NAME_DIGITS.iter().position(|d| *d == c) {
             Some(i) => r = r * 6 + i as u64,
             None => return 99999,
         }
     }
-    r
+    match num {
+        "10" => r * 2,
+        "9" => r * 2 + 1,
+        _ => 99999,
+    }
 }
